@@ -159,8 +159,8 @@ PROPERTIES = {
                            "entry of each line. bounded stand-in: 'shadow' (zeros, signs, ties, order incl. later rows above earlier, "
                            "strict dominance, priorities beyond 2**53), 'prio' / 'rank' (dense, order preserving), batched 3-D. ADDED: ranking (1-D, row-wise 2-D), prio/rank (1x2, 2x1, 2x2; 2x3, 3x2 thorough; both axes) and shadow (1-D n<=3, 2-D <=2x2; larger thorough) through the real Python code with symbolic entries; for shadow the compiled bit allocation is replaced by the executable form of its assumed contract A-rs2 (pyvc.rsmodel), which is validated against the compiled function at run time."},
     "C14": {"harness_modules": ["contracts.c14"], "lean": True, "rt": ["rt.arrays:a_rs2_bit_allocation", "rt.config:c14_objectives"], "level": "other",
-            "assumptions": S_ALL + ["A-rs2: the weights come from puan_rspy.py_optimized_bit_allocation_64 (compiled Rust, not under "
-                                    "contract); 'shadow' compression is C13 (bounded stand-in)"],
+            "assumptions": S_ALL + ["A-rs2: the weights come from puan_rspy.py_optimized_bit_allocation_64 (compiled Rust): assumed contract as "
+                                    "an executable model (pyvc.rsmodel, see C13), validated against the compiled function at run time"],
             "explanation": "deductive: cc.Any.__init__ / cc.Xor.__init__ (real source, abstract duplicate-free boolean children of any "
                            "number): same truth function as Any / exactly-one; with a default among >= 2 children the non-default "
                            "children are moved into an inner Any tagged prio = -2 and the default branch keeps exactly the default "
